@@ -357,9 +357,16 @@ def run_property(mod, tier='quick', seed=0, replay=None):
             if wanted is None or name in wanted:
                 obligations.append(('extract:' + name, ok, detail))
         # 2. build
-        ok, mlog = make_targets(mod.COQ_TARGETS)
-        obligations.append(('build:' + ','.join(mod.COQ_TARGETS), ok, '' if ok else mlog[-1500:]))
+        # the model / checker side (needed to evaluate cases) is built first, the theorems separately, so
+        # that a broken proof obligation does not stop the search for a concrete failing input
+        core = [t for t in mod.COQ_TARGETS if not t.endswith('Props.vo')]
+        ok, mlog = make_targets(core)
+        obligations.append(('build:' + ','.join(core), ok, '' if ok else mlog[-1500:]))
         build_ok = ok
+        rest = [t for t in mod.COQ_TARGETS if t.endswith('Props.vo')]
+        if rest:
+            ok2, mlog2 = make_targets(rest)
+            obligations.append(('build:' + ','.join(rest), ok2, '' if ok2 else mlog2[-1500:]))
         pr = None
         if getattr(mod, 'PROPS', None):
             pr = check_props(mod.PROPS)
